@@ -35,7 +35,8 @@ func main() {
 		ID:    "C11",
 		Level: "exploration",
 		Rule: "programs: grammar-directed generator (well- and ill-typed by construction: it is type-blind), hand-written programs with recursion, duplicates, gotos, functional subroutines, `error;`, every example and corpus file; " +
-			"include graphs: ALL digraphs over up to three module files (missing, self, 2-cycle, 3-cycle, diamond, chain) with the include at top level and inside a subroutine, each with three fillings. " +
+			"call-graph programs (2-7 user subroutines calling each other at random incl. cycles, callers outside cycles, unused ones, calls from several Fastly subroutines, scope annotations, functional subroutines, scope-restricted statements, used/unused tables, ACLs, backends) built as one text block per declaration; " +
+			"include graphs: ALL digraphs over up to three module files (missing, self, 2-cycle, 3-cycle, diamond, chain) with the include at top level, inside a subroutine, and inside nested if / else / switch-case blocks of the included module, each with three fillings. " +
 			"Monitors: panic guard / worker death / include-load budget (>10000 module loads for a <=4-file graph = non-terminating); repeat monitor (every program linted 8x in fresh contexts in one process - Go randomises map iteration per range statement - " +
 			"multisets of (rule, severity, file, line, position, message) must be equal); permutation monitor (random permutations of the top-level subroutine declarations; multisets with positions mapped to (subroutine name, statement ordinal) must be equal). " +
 			"non-trivial = program with >=1 diagnostic; distinct by program text",
@@ -78,12 +79,19 @@ func includeGraphs() []lcase {
 		if n > 4 {
 			continue // keep the graphs small: at most 4 edges besides the root's
 		}
-		for _, inSub := range []bool{false, true} {
+		for _, place := range []string{"top", "sub", "nested-if", "nested-else", "nested-switch"} {
+			inSub := place != "top"
+			if n == 0 && place != "top" && place != "sub" {
+				continue
+			}
 			for fi, f := range fill {
 				if inSub && fi > 0 {
 					continue
 				}
 				lc := lcase{Mods: map[string]string{}, Shape: shapeOf(edges)}
+				if strings.HasPrefix(place, "nested") {
+					lc.Shape += "/" + place
+				}
 				inc := func(ts []string) string {
 					var sb strings.Builder
 					for _, t := range ts {
@@ -92,6 +100,18 @@ func includeGraphs() []lcase {
 					return sb.String()
 				}
 				for _, m := range mods {
+					switch {
+					case place == "nested-if":
+						// the include sits in a nested block of the module: expanded when that block is linted
+						lc.Mods[m] = "set req.http.In-" + m + " = \"1\";\nif (req.http.A) {\n" + inc(edges[m]) + "}\n"
+						continue
+					case place == "nested-else":
+						lc.Mods[m] = "if (req.http.A) {\n  set req.http.In-" + m + " = \"1\";\n} else if (req.http.B) {\n" + inc(edges[m]) + "} else {\n" + inc(edges[m]) + "}\n"
+						continue
+					case place == "nested-switch":
+						lc.Mods[m] = "switch (req.http.A) {\ncase \"a\":\n" + inc(edges[m]) + "  break;\ndefault:\n  { " + strings.ReplaceAll(inc(edges[m]), "\n", " ") + "}\n  break;\n}\n"
+						continue
+					}
 					if inSub {
 						lc.Mods[m] = "set req.http.In-" + m + " = \"1\";\n" + inc(edges[m])
 					} else {
@@ -195,6 +215,9 @@ func genCases(g *fw.GenCtx) {
 	}
 	for k := 0; k < g.Pick(120, 3000); k++ {
 		g.Emit("gen", lcase{Seed: g.Rand.Int63(), N: 20, Reps: 8, Perms: g.Pick(4, 12)})
+	}
+	for k := 0; k < g.Pick(150, 4000); k++ {
+		g.Emit("callgraph", lcase{Seed: g.Rand.Int63(), N: 20, Reps: 8, Perms: g.Pick(4, 10)})
 	}
 }
 
@@ -436,6 +459,11 @@ func run(c fw.Case) fw.Outcome {
 		repeatMonitor(&oc, lc.Main, lc.Mods, lc.Reps, "include:"+lc.Shape, map[string]any{"main": lc.Main, "modules": lc.Mods, "shape": lc.Shape})
 		oc.Tag("include-shape:" + lc.Shape)
 		oc.NonTrivialS(lc.Main + fmt.Sprint(lc.Mods))
+	case "callgraph":
+		r := rand.New(rand.NewSource(lc.Seed))
+		for i := 0; i < lc.N && len(oc.Viols) == 0; i++ {
+			runCallGraph(&oc, r, lc.Reps, lc.Perms)
+		}
 	case "gen":
 		r := rand.New(rand.NewSource(lc.Seed))
 		for i := 0; i < lc.N; i++ {
